@@ -11,6 +11,11 @@ pub struct Ledger { pub live: HashSet<u64>, pub next: u64, pub created: u64, pub
 thread_local! { pub static LEDGER: RefCell<Ledger> = RefCell::new(Ledger::default()); }
 pub fn reset_ledger() { LEDGER.with(|l| *l.borrow_mut() = Ledger::default()); }
 pub fn live() -> usize { LEDGER.with(|l| l.borrow().live.len()) }
+/// fault injection: when armed with k > 0, the k-th subsequent `clone` or comparison of a Tok panics (once)
+thread_local! { pub static FUSE: std::cell::Cell<u64> = std::cell::Cell::new(0); }
+pub fn arm(k: u64) { FUSE.with(|f| f.set(k)); }
+pub fn disarm() -> bool { FUSE.with(|f| { let left = f.get(); f.set(0); left == 0 }) }
+fn tick() { let blow = FUSE.with(|f| { let k = f.get(); if k == 0 { false } else { f.set(k - 1); k == 1 } }); if blow { panic!("injected fault in user code of the sample type"); } }
 pub fn anomalies() -> usize { LEDGER.with(|l| l.borrow().anomalies.len()) }
 
 #[derive(Debug)]
@@ -21,10 +26,10 @@ impl Tok {
     pub fn new(val: i64) -> Tok { LEDGER.with(|l| { let mut l = l.borrow_mut(); l.next += 1; l.created += 1; let id = l.next; l.live.insert(id); Tok { id, val, tag: true } }) }
     fn touch(&self) -> i64 { LEDGER.with(|l| { let mut l = l.borrow_mut(); if !l.live.contains(&self.id) { let m = format!("use of non-live value #{}", self.id); l.anomalies.push(m); } }); self.val }
 }
-impl Clone for Tok { fn clone(&self) -> Tok { Tok::new(self.touch()) } }
+impl Clone for Tok { fn clone(&self) -> Tok { tick(); Tok::new(self.touch()) } }
 impl Drop for Tok { fn drop(&mut self) { LEDGER.with(|l| { let mut l = l.borrow_mut(); l.dropped += 1; if !l.live.remove(&self.id) { let m = format!("drop of non-live value #{}", self.id); l.anomalies.push(m); } }) } }
-impl PartialEq for Tok { fn eq(&self, o: &Tok) -> bool { self.touch() == o.touch() } }
-impl PartialOrd for Tok { fn partial_cmp(&self, o: &Tok) -> Option<Ordering> { self.touch().partial_cmp(&o.touch()) } }
+impl PartialEq for Tok { fn eq(&self, o: &Tok) -> bool { tick(); self.touch() == o.touch() } }
+impl PartialOrd for Tok { fn partial_cmp(&self, o: &Tok) -> Option<Ordering> { tick(); self.touch().partial_cmp(&o.touch()) } }
 impl Add for Tok { type Output = Tok; fn add(self, o: Tok) -> Tok { Tok::new(self.touch().wrapping_add(o.touch())) } }
 impl Sub for Tok { type Output = Tok; fn sub(self, o: Tok) -> Tok { Tok::new(self.touch().wrapping_sub(o.touch())) } }
 impl Mul for Tok { type Output = Tok; fn mul(self, o: Tok) -> Tok { Tok::new(self.touch().wrapping_mul(o.touch())) } }
